@@ -432,6 +432,139 @@ theorem mkHindexed_bounds (bs : List (Int × Int)) (old r : Obj) (he : 0 ≤ old
       simp only at this
       omega
 
+/-! ### facts needed to chain the per-constructor theorems along a tree -/
+
+/-- MPI's extent of a placement is not negative when the old extent is not -/
+theorem listMin_le_listMax (D : List Int) (L U : Int) (h : L ≤ U) :
+    listMin (D.map (· + L)) ≤ listMax (D.map (· + U)) := by
+  cases D with
+  | nil => simp [listMin, listMax]
+  | cons d t =>
+    have h1 := (listMin_isMin (((d :: t)).map (· + L)) (by simp)).2 (d + L) (by simp)
+    have h2 := (listMax_isMax (((d :: t)).map (· + U)) (by simp)).2 (d + U) (by simp)
+    omega
+
+theorem idxLoop_nonneg (scale csize L U e : Int) :
+    ∀ (bs : List (Int × Int)) (s : Int) (st : Int × Int × Bool) (c : Bool) r,
+      idxLoop scale csize L U e bs s st c = some r → ∀ b ∈ bs, 0 ≤ b.1 := by
+  intro bs
+  induction bs with
+  | nil => intro s st c r _ b hb; simp at hb
+  | cons b0 rest ih =>
+    intro s st c r hr b hb
+    obtain ⟨bl, idx⟩ := b0
+    simp only [idxLoop] at hr
+    split at hr
+    · cases hr
+    · simp only [List.mem_cons] at hb
+      rcases hb with rfl | hb
+      · simp only; omega
+      · exact ih _ _ _ _ hr b hb
+
+theorem sum_fst_nonneg : ∀ (bs : List (Int × Int)), (∀ b ∈ bs, 0 ≤ b.1) → 0 ≤ (bs.map (·.1)).sum := by
+  intro bs
+  induction bs with
+  | nil => intro _; simp
+  | cons y ys ih =>
+    intro h
+    simp only [List.map_cons, List.sum_cons]
+    have h1 := h y (by simp)
+    have h2 := ih (fun x hx => h x (by simp [hx]))
+    omega
+
+theorem copies_nil_of_sum_zero (scale e : Int) : ∀ (bs : List (Int × Int)), (∀ b ∈ bs, 0 ≤ b.1) →
+    (bs.map (·.1)).sum ≤ 0 → bs.flatMap (fun b => blockCopies (b.2 * scale) b.1 e) = [] := by
+  intro bs
+  induction bs with
+  | nil => intro _ _; rfl
+  | cons b rest ih =>
+    intro hnn hs
+    simp only [List.map_cons, List.sum_cons] at hs
+    have hb : 0 ≤ b.1 := hnn b (by simp)
+    have hrest : ∀ x ∈ rest, 0 ≤ x.1 := fun x hx => hnn x (by simp [hx])
+    have hsum : 0 ≤ (rest.map (·.1)).sum := sum_fst_nonneg rest hrest
+    simp only [List.flatMap_cons]
+    rw [blockCopies_nil _ _ _ (by omega), ih hrest (by omega)]
+    rfl
+
+/-- a non-derived result of `mkContiguous` (count ≤ 0) -/
+theorem mkContiguous_plain (count : Int) (old r : Obj) (lb : Int) (hd : old.info.derived = false)
+    (h : mkContiguous count old lb = some r) (hr : r.info.derived = false) :
+    count ≤ 0 ∧ r.info.size = count * old.info.size := by
+  unfold mkContiguous at h
+  simp only [hd, Bool.false_eq_true, if_false] at h
+  split at h
+  · injection h with h; subst h; simp [Obj.info] at hr
+  · injection h with h; subst h; simp [Obj.info]; omega
+
+/-- a non-derived result of create_indexed is an empty type with the natural bounds -/
+theorem mkIndexed_natural (bs : List (Int × Int)) (old r : Obj) (he : 0 ≤ old.info.extent)
+    (hnat : old.info.derived = false → old.info.lb = 0 ∧ old.info.ub = old.info.size)
+    (hr : mkIndexed bs old = some r) (hnd : r.info.derived = false) :
+    r.info.lb = 0 ∧ r.info.ub = r.info.size ∧ 0 ≤ r.info.size := by
+  obtain ⟨b1, b2⟩ := mkIndexed_bounds bs old r he hnat hr
+  unfold mkIndexed at hr
+  simp only at hr
+  split at hr
+  · cases hr
+  · rename_i size lb ub c heq
+    have hsz := (idxLoop_ok old.info.extent 1 old.info.lb old.info.ub old.info.extent he bs 0 (0, 0, true) true []
+      (Or.inl ⟨rfl, rfl⟩) _ heq).2.2
+    have hnn := idxLoop_nonneg _ _ _ _ _ _ _ _ _ _ heq
+    cases hd : old.info.derived with
+    | true => simp [hd] at hr; subst hr; simp [Obj.info] at hnd
+    | false =>
+    cases hct : c with
+    | false => simp [hd, hct] at hr; subst hr; simp [Obj.info] at hnd
+    | true =>
+      simp [hd, hct] at hr
+      obtain ⟨g1, g2⟩ := mkContiguous_info size old r lb hd hr
+      obtain ⟨p1, p2⟩ := mkContiguous_plain size old r lb hd hr hnd
+      simp only at hsz
+      have hnil := copies_nil_of_sum_zero old.info.extent old.info.extent bs hnn (by omega)
+      rw [hnil] at b1
+      simp only [List.map_nil, listMin] at b1
+      have hlb : lb = 0 := by rw [← g1]; exact b1
+      have hs0 : size = 0 := by
+        have : 0 ≤ (bs.map (·.1)).sum := sum_fst_nonneg bs hnn
+        omega
+      rw [g2, p2, hs0, hlb]
+      exact ⟨b1, by simp, by simp⟩
+
+/-- a non-derived result of create_hindexed is an empty type with the natural bounds -/
+theorem mkHindexed_natural (bs : List (Int × Int)) (old r : Obj) (he : 0 ≤ old.info.extent)
+    (hnat : old.info.derived = false → old.info.lb = 0 ∧ old.info.ub = old.info.size)
+    (hr : mkHindexed bs old = some r) (hnd : r.info.derived = false) :
+    r.info.lb = 0 ∧ r.info.ub = r.info.size ∧ 0 ≤ r.info.size := by
+  obtain ⟨b1, b2⟩ := mkHindexed_bounds bs old r he hnat hr
+  unfold mkHindexed at hr
+  simp only at hr
+  split at hr
+  · cases hr
+  · rename_i size lb ub c heq
+    have hsz := (idxLoop_ok 1 old.info.size old.info.lb old.info.ub old.info.extent he bs 0 (0, 0, true) true []
+      (Or.inl ⟨rfl, rfl⟩) _ heq).2.2
+    have hnn := idxLoop_nonneg _ _ _ _ _ _ _ _ _ _ heq
+    cases hd : old.info.derived with
+    | true => simp [hd] at hr; subst hr; simp [Obj.info] at hnd
+    | false =>
+    cases hct : c with
+    | false => simp [hd, hct] at hr; subst hr; simp [Obj.info] at hnd
+    | true =>
+    by_cases hlb0 : lb = 0
+    case neg => simp [hd, hlb0] at hr; subst hr; simp [Obj.info] at hnd
+    case pos =>
+      simp [hd, hct, hlb0] at hr
+      rw [← hlb0] at hr
+      obtain ⟨g1, g2⟩ := mkContiguous_info size old r lb hd hr
+      obtain ⟨p1, p2⟩ := mkContiguous_plain size old r lb hd hr hnd
+      simp only at hsz
+      have hs0 : size = 0 := by
+        have : 0 ≤ (bs.map (·.1)).sum := sum_fst_nonneg bs hnn
+        omega
+      rw [g2, p2, hs0, g1, hlb0]
+      exact ⟨rfl, by simp, by simp⟩
+
 /-! ### create_struct -/
 
 /-- lb / ub of the copies of one member (block length > 0) -/
